@@ -7,6 +7,7 @@ from rules import PL
 from props.C04 import call_results, agg_field_operands
 
 META = {
+    "explanation_more": "Also (round 5): refresh looks the process up whatever status is recorded except Removed (C19.refresh.lookup); 'a removed service stays removed' is decided from the head of the per-service iteration.",
     "explanation_more": 'Also (round 4): after the new definition was installed every outcome of upgrade records the new version (C19.upgrade.version.always).',
     "explanation": "Decides: (1) NodeServiceData.status and .pid are assigned only in NodeService::{on_start,on_stop,on_remove}; NodeServiceData "
                    "literals exist only in add_node (status Added, pid None) and local::run_node (status Running with the pid the freshly "
